@@ -53,6 +53,10 @@ tpt_msg_queue_p tpt_msg_queue_create(tpt_p tpt, const uint32_t flags);
 #define TP_MSG_Q_F_CLOEXEC	(((uint32_t)1) <<  0) /* Pass O_CLOEXEC to pipe2(). */
 
 void		tpt_msg_queue_destroy(tpt_msg_queue_p msg_queue);
+/* Process all messages that are in the queue now.
+ * Used by thread pool then thread leave the loop: messages accepted by
+ * tpt_msg_send() after stop message must not be lost. */
+void		tpt_msg_queue_drain(tpt_msg_queue_p msg_queue);
 
 
 /* Thread messages. Unicast and Broadcast. */
